@@ -32,23 +32,26 @@ ASSUMPTIONS = ["project is checked for the rank id only when the caller passes r
 
 OPS = ["construct", "splitUniform", "splitEqual", "splitNonUniform", "splitUnEqual", "truediv", "floordiv", "swizzle",
        "swap", "flatten", "merge", "flatten_unflatten", "flatten_twice", "updateCoords", "updatePayloads", "deepcopy",
-       "yaml", "fill_in_steps", "from_ragged"]
+       "yaml", "fill_in_steps", "from_ragged", "split_swizzle", "split_swizzle", "flatten_elsewhere"]
 
 
 @st.composite
 def cases(draw):
     op = draw(st.sampled_from(OPS))
-    d = draw(st.sampled_from([1, 2, 2, 3, 3]))
+    d = draw(st.sampled_from([1, 2, 2, 3, 3, 4]))
+    if op == "flatten_elsewhere":
+        d = 4
     c = {"op": op, "how": draw(st.sampled_from(["ref", "fiber", "uncompressed", "yaml", "deepcopy", "random",
                                                  "populated"])),
          "sel": draw(st.lists(st.integers(0, 9), min_size=4, max_size=4)),
-         "perm": list(draw(st.permutations([0, 1, 2]))),
+         "perm": list(draw(st.permutations([0, 1, 2, 3]))),
+         "perm5": list(draw(st.permutations([0, 1, 2, 3, 4]))),
          "style": draw(st.sampled_from(["tuple", "pair", "linear"])),
          "mstyle": draw(st.sampled_from(["absolute", "relative"])),
-         "levels": draw(st.integers(1, 2)),
+         "levels": draw(st.sampled_from([1, 2, 3, 1, 2])),
          "fmts": [draw(st.sampled_from(["C", "C", "U"])) for _ in range(d)],
          "mutable": draw(st.booleans()), "seed": draw(st.integers(0, 99))}
-    shape = [draw(st.integers(1, 5)) for _ in range(d)]
+    shape = [draw(st.integers(1, 5 if d < 4 else 3)) for _ in range(d)]
     c["spec"] = draw(gen.content_specs(shape, defaults=(0, 0, 2), max_points=8, min_points=1, p_noise=0.5,
                                        auth="any"))
     return c
@@ -232,6 +235,41 @@ def check(case, rec):
             where = f"unflatten of {where}"
             nf2 = fmts[:dd] + [None] * (levels + 1) + fmts[dd + levels + 1:]
             expect(r, where, ids=ids, shape=ashape if auth else "skip", default=default, fmts=nf2, mutable=mut)
+    elif op == "split_swizzle":
+        # the tiling workflow: split a rank, then move the new ranks around.  The lower rank of a split has
+        # fibers with different, non-nested active ranges; a fiber of the swizzled tensor may span several
+        if d > 3:
+            return
+        for i in range(d):
+            t.setFormat(ids[i], "C")
+        fmts = ["C"] * d
+        step = 1 + sel[1] % (S + 1)
+        s_ = t.splitUniform(step, depth=depth, relativeCoords=False) if sel[2] % 2 == 0 else \
+            t.splitEqual(1 + sel[1] % 3, depth=depth)
+        sid = ids[:depth] + [ids[depth] + ".1", ids[depth] + ".0"] + ids[depth + 1:]
+        sshape = (ashape[:depth] + [S, S] + ashape[depth + 1:]) if auth else None
+        perm = [p for p in case["perm5"] if p < d + 1]
+        r = s_.swizzleRanks([sid[p] for p in perm])
+        where = f"swizzleRanks({[sid[p] for p in perm]}) of a split at depth {depth}"
+        expect(r, where, ids=[sid[p] for p in perm], shape=[sshape[p] for p in perm] if auth else "skip",
+               default=default, fmts=["C"] * (d + 1), mutable=mut)
+        rec.cls("split-swizzle-moved-lower-rank-up", perm.index(depth + 1) < perm.index(depth))
+    elif op == "flatten_elsewhere":
+        # a tensor that already has a flattened rank (list id, format set on it) is flattened at other ranks:
+        # the untouched rank keeps its id, shape and format
+        t.setFormat(ids[2], "C")
+        t.setFormat(ids[3], "C")
+        f1 = t.flattenRanks(depth=0, levels=1, coord_style="tuple")
+        top = f1.getRankIds()[0]
+        fm = "U" if sel[1] % 2 else "C"
+        f1.setFormat(top, fm)
+        r = f1.flattenRanks(depth=1, levels=1, coord_style="pair" if sel[2] % 2 else "tuple")
+        where = "flatten(depth=1) of a tensor whose rank 0 is already flattened"
+        expect(r, where, ids=[ids[0:2], ids[2:4]],
+               shape=[tuple(shape[0:2]), tuple(shape[2:4])] if auth else "skip", default=default,
+               fmts=[fm, None], mutable=mut)
+        if f1.getFormat(top) != fm:
+            raise Violation("operand-attrs", f"{where}: the operand's format of {top} changed to {f1.getFormat(top)}")
     elif op == "fill_in_steps":
         # a tensor without declared shape filled in place, looked at while partly filled and again later
         pts = sorted(model.content(spec).items())
